@@ -64,6 +64,8 @@ pub struct Plan {
     pub add_learners: u32,
     /// scripted fault schedule (directed scenarios) instead of the random fault loop
     pub script: Vec<Step>,
+    /// explicit key names (watch family: '/'-structured keys); empty = k0, k1, ...
+    pub key_names: Vec<Vec<u8>>,
 }
 
 /// One step of a directed scenario. Node roles are resolved when the step runs.
@@ -138,6 +140,7 @@ pub fn base_plan(family: &str, seed: u64) -> Plan {
         full_restart: false,
         add_learners: 0,
         script: Vec::new(),
+        key_names: Vec::new(),
     }
 }
 
@@ -277,6 +280,26 @@ pub fn plan_for(family: &str, seed: u64) -> Plan {
                 Step::Sleep(r.range(300, 1000)),
             ];
         }
+        // watch streams: '/'-structured keys, exact and prefix watchers with fast / slow /
+        // stalling consumers, small per-watcher and broadcast buffers so that both overflow
+        "watch" => {
+            pl.key_names = vec![b"/a/x".to_vec(), b"/a/y".to_vec(), b"/b/x".to_vec(), b"/ab/x".to_vec(), b"/a/b/z".to_vec(), b"/a".to_vec()];
+            pl.keys = pl.key_names.len() as u32;
+            pl.clients = r.range(3, 7) as u32;
+            pl.op_gap_ms = (0, 6);
+            pl.bursty = true;
+            pl.mix = [55, 15, 25, 5, 0, 0];
+            pl.params.watch_buf = *r.pick(&[2, 4, 8, 64]);
+            pl.params.watch_queue = *r.pick(&[4, 8, 32, 1000]);
+            pl.params.watch_hb_ms = *r.pick(&[0, 100, 400]);
+            pl.params.max_batch = *r.pick(&[8, 32, 100]);
+            pl.w_crash = 4;
+            pl.w_restart = 12;
+            pl.w_isolate_leader = 8;
+            pl.w_partition_minority = 5;
+            pl.w_apply_lag = 6;
+            pl.duration_ms = r.range(3000, 7000);
+        }
         "liveness" => {
             pl.w_heal = 25;
             pl.w_crash = 12;
@@ -315,6 +338,10 @@ fn key_of(i: u32) -> Vec<u8> {
     format!("k{i}").into_bytes()
 }
 
+fn plan_key(plan: &Plan, i: u32) -> Vec<u8> {
+    if plan.key_names.is_empty() { key_of(i) } else { plan.key_names[i as usize % plan.key_names.len()].clone() }
+}
+
 async fn client_loop(
     cl: ClientHandle,
     cid: u32,
@@ -340,7 +367,7 @@ async fn client_loop(
         }
         let hint = leader_hint.load(Ordering::Relaxed) as u32;
         let node = if hint != 0 && nodes.contains(&hint) && r.chance(4, 5) { hint } else { *r.pick(&nodes) };
-        let key = key_of(r.below(plan.keys as u64) as u32);
+        let key = plan_key(&plan, r.below(plan.keys as u64) as u32);
         let seq = seqs.fetch_add(1, Ordering::Relaxed);
         let val = format!("c{cid}-{seq}").into_bytes();
         let mut x = r.below(total.max(1));
@@ -442,6 +469,91 @@ async fn sleep_with_checkpoints<K: EngineKind>(c: &Cluster<K>, ms: u64, hint: &A
         checkpoint(c);
         hint.store(c.leader().unwrap_or(0) as u64, Ordering::Relaxed);
     }
+}
+
+/// Register one watcher (exact key or '/'-terminated prefix) on a random live node through the
+/// node's real `WatchRegistry` and start its consumer task (fast, slow or stalling reader; some
+/// consumers drop their handle after a while, which unregisters the watcher).
+fn spawn_watcher<K: EngineKind>(
+    c: &Cluster<K>,
+    plan: &Plan,
+    r: &mut Rng,
+    next_wid: &mut u64,
+    stop: &Arc<AtomicBool>,
+    tasks: &mut Vec<tokio::task::JoinHandle<()>>,
+) {
+    use d_engine_core::StateMachine;
+    use d_engine_core::watch::WatchEventType;
+    let live = c.live_ids();
+    if live.is_empty() {
+        return;
+    }
+    let node = *r.pick(&live);
+    let Some(n) = c.node(node) else { return };
+    let prefixes: [&[u8]; 5] = [b"/a/", b"/b/", b"/a/b/", b"/", b"/ab/"];
+    let is_prefix = r.chance(1, 2);
+    let key: Vec<u8> = if is_prefix { r.pick(&prefixes).to_vec() } else { plan_key(plan, r.below(plan.keys as u64) as u32) };
+    let reg = if is_prefix {
+        n.watch_registry.register_prefix(bytes::Bytes::from(key.clone()), r.chance(1, 3))
+    } else {
+        n.watch_registry.register(bytes::Bytes::from(key.clone()), r.chance(1, 3))
+    };
+    let Ok(mut handle) = reg else { return };
+    let wid = *next_wid;
+    *next_wid += 1;
+    let applied = n.sm.last_applied().index;
+    c.rec.push(c.now(), Ev::WatchRegister { wid, node, inc: n.inc, key, is_prefix, applied_at_registration: applied });
+    let rec = c.rec.clone();
+    let net = c.net.clone();
+    let stop = stop.clone();
+    let profile = r.below(4); // 0,1 fast; 2 slow; 3 stalls
+    let drop_after = if r.chance(1, 4) { Some(r.range(200, 2500)) } else { None };
+    let mut wr = Rng::new(r.next());
+    tasks.push(tokio::spawn(async move {
+        let started = net.now();
+        loop {
+            if stop.load(Ordering::Relaxed) {
+                // drain what is buffered, then finish (the stream counts as read to the end)
+                while let Ok(e) = handle.receiver_mut().try_recv() {
+                    let kind = match e.event_type {
+                        WatchEventType::Put => "put",
+                        WatchEventType::Delete => "delete",
+                        WatchEventType::Canceled => "canceled",
+                        WatchEventType::Progress => "progress",
+                    };
+                    rec.push(net.now(), Ev::WatchRecv { wid, kind, key: e.key.to_vec(), value: e.value.to_vec(), revision: e.revision });
+                }
+                break;
+            }
+            if let Some(d) = drop_after
+                && net.now() >= started + d
+            {
+                rec.push(net.now(), Ev::WatchEnd { wid, why: "dropped" });
+                break; // dropping the handle unregisters the watcher
+            }
+            match tokio::time::timeout(Duration::from_millis(50), handle.receiver_mut().recv()).await {
+                Err(_) => continue,
+                Ok(None) => {
+                    rec.push(net.now(), Ev::WatchEnd { wid, why: "closed" });
+                    break;
+                }
+                Ok(Some(e)) => {
+                    let kind = match e.event_type {
+                        WatchEventType::Put => "put",
+                        WatchEventType::Delete => "delete",
+                        WatchEventType::Canceled => "canceled",
+                        WatchEventType::Progress => "progress",
+                    };
+                    rec.push(net.now(), Ev::WatchRecv { wid, kind, key: e.key.to_vec(), value: e.value.to_vec(), revision: e.revision });
+                    match profile {
+                        2 => tokio::time::sleep(Duration::from_millis(wr.range(2, 40))).await,
+                        3 if wr.chance(1, 10) => tokio::time::sleep(Duration::from_millis(wr.range(200, 900))).await,
+                        _ => {}
+                    }
+                }
+            }
+        }
+    }));
 }
 
 /// The generic chaos scenario.
@@ -584,7 +696,15 @@ pub async fn run_chaos<K: EngineKind>(plan: &Plan, scratch: &Path) -> RunOutcome
             }
         }
     }
+    let mut watch_tasks: Vec<tokio::task::JoinHandle<()>> = Vec::new();
+    let watch_stop = Arc::new(AtomicBool::new(false));
+    let mut next_wid: u64 = 1;
     while plan.script.is_empty() && c.now() < end {
+        if plan.family == "watch" {
+            for _ in 0..r.range(1, 3) {
+                spawn_watcher(&c, plan, &mut r, &mut next_wid, &watch_stop, &mut watch_tasks);
+            }
+        }
         // membership growth early in the run
         if learners_left > 0 && r.chance(1, 3) && c.leader().is_some() {
             let id = next_learner;
@@ -759,6 +879,13 @@ pub async fn run_chaos<K: EngineKind>(plan: &Plan, scratch: &Path) -> RunOutcome
     c.refresh(&cl);
     // let clients continue for a little while on the healed cluster, then stop them
     sleep_with_checkpoints(&c, plan.quiet_ms / 2, &hint).await;
+    if plan.family == "watch" {
+        // a few watchers on the healed cluster as well
+        for _ in 0..3 {
+            spawn_watcher(&c, plan, &mut r, &mut next_wid, &watch_stop, &mut watch_tasks);
+        }
+        sleep_with_checkpoints(&c, 300, &hint).await;
+    }
     stop.store(true, Ordering::Relaxed);
     for t in client_tasks {
         let _ = tokio::time::timeout(Duration::from_millis(plan.client_timeout_ms + 500), t).await;
@@ -771,7 +898,7 @@ pub async fn run_chaos<K: EngineKind>(plan: &Plan, scratch: &Path) -> RunOutcome
     let mut final_values: BTreeMap<String, Value> = BTreeMap::new();
     if let Some(l) = leader {
         for k in 0..plan.keys {
-            let (_, res) = cl.read(999, l, vec![key_of(k)], Some("linearizable"), "cmd", 3000).await;
+            let (_, res) = cl.read(999, l, vec![plan_key(plan, k)], Some("linearizable"), "cmd", 3000).await;
             final_values.insert(format!("k{k}"), super::record::result_json(&res));
         }
     }
@@ -823,10 +950,48 @@ pub async fn run_chaos<K: EngineKind>(plan: &Plan, scratch: &Path) -> RunOutcome
             }
         }
     }
+    // ---- watch streams: let consumers drain, then judge every stream (C24) ----
+    if plan.family == "watch" {
+        use d_engine_core::StateMachine;
+        // quiescence: every live state machine has stopped advancing (a node that lagged may
+        // still be catching up); what a stream owes is judged against the applied index seen
+        // *before* the consumers are told to drain
+        let snapshot_applied = |c: &Cluster<K>| -> std::collections::HashMap<(u32, u32), u64> {
+            let mut m = std::collections::HashMap::new();
+            for id in c.live_ids() {
+                if let Some(n) = c.node(id) {
+                    m.insert((id, n.inc), n.sm.last_applied().index);
+                }
+            }
+            m
+        };
+        let mut fa = snapshot_applied(&c);
+        for _ in 0..40 {
+            c.sleep(300).await;
+            let now = snapshot_applied(&c);
+            if now == fa {
+                break;
+            }
+            fa = now;
+        }
+        watch_stop.store(true, Ordering::Relaxed);
+        for t in watch_tasks.drain(..) {
+            let _ = tokio::time::timeout(Duration::from_millis(3000), t).await;
+        }
+        let t = c.now();
+        let mut on = c.rec.online();
+        on.watch.finish(t, &fa);
+        let wf = std::mem::take(&mut on.watch.findings);
+        on.findings.extend(wf);
+        out.counters.insert("watchers_checked".into(), on.watch.watchers_checked);
+        out.counters.insert("watch_events_checked".into(), on.watch.events_checked);
+        out.counters.insert("watch_cancels_seen".into(), on.watch.cancels_seen);
+        out.counters.insert("watch_gaps_announced_by_cancel".into(), on.watch.gaps_tolerated_by_cancel);
+    }
     // ---- quiescent state oracle (C06 / C15 / C16) ----
     {
         use d_engine_core::StateMachine;
-        let mut keys: Vec<Vec<u8>> = (0..plan.keys).map(key_of).collect();
+        let mut keys: Vec<Vec<u8>> = (0..plan.keys).map(|i| plan_key(plan, i)).collect();
         keys.push(b"probe".to_vec());
         for id in c.live_ids() {
             if let Some(n) = c.node(id) {
